@@ -70,6 +70,29 @@ def run(ctx):
     except Exception as e:
         ctx.mismatch("source audit of gamma.rs constants failed", None, str(e), None)
     ps = pairs(ctx)
+    # points that sit EXACTLY on the seams between the starting-value branches: b = (1-p) Gamma(a), formed as the code forms it
+    # (q = 1 - p, b = q * statrs::gamma(a), both rounded), equal bit for bit to 0.45, 0.35, 0.15, 0.01, 0.6 (and one float off)
+    seam_a = [0.05, 0.1, 0.2, 0.25, 0.29, 0.3, 0.31, 0.35, 0.4, 0.5, 0.6, 0.7, 0.75, 0.8, 0.9, 0.95, 0.999] + [ctx.rng.uniform(0.05, 0.999) for _ in range(30 if ctx.quick else 300)]
+    gs = run_harness([{"op": "statrs", "fn": "gamma", "a": f2b(a)} for a in seam_a])
+    nseam = 0
+    for a, gres in zip(seam_a, gs):
+        if "r" not in gres:
+            continue
+        g = b2f(gres["r"])
+        for be in (0.45, 0.35, 0.15, 0.01, 0.6):
+            q0 = be / g
+            cands = [q0]
+            for _ in range(6):
+                cands = [math.nextafter(cands[0], 0.0)] + cands + [math.nextafter(cands[-1], 2.0)]
+            for q in cands:
+                if not 0 < q < 1:
+                    continue
+                pcand = 1.0 - q
+                if (1.0 - pcand) * g == be and 0 < pcand < 1:
+                    ps.append((a, pcand)); nseam += 1
+                    ps.append((a, math.nextafter(pcand, 0.0))); ps.append((a, math.nextafter(pcand, 1.0)))
+                    break
+    ctx.count("exact_seam_points", nseam)
     reqs = [{"op": "gamma", "a": f2b(a), "p": f2b(p)} for a, p in ps]
     impl = run_harness(reqs); model = run_driver(reqs)
     worst = 0.0
@@ -101,6 +124,10 @@ def run(ctx):
     ctx.extra["worst_residual"] = worst
     # lambda of a sample is this function of (dod, coordinate 2E-2)
     ss = S.generate(ctx, 8 if ctx.quick else 40, 3, max_e=5, max_loops=2, routings_per_graph=1, kinds=("uniform", "corner", "edge1"))
+    # an exactly zero xi with edges still to remove (one-loop polygons stay non-singular: the sample succeeds): lambda is STILL the
+    # quantile at coordinate 2E-2, however many of the preceding coordinates "no longer matter"
+    ss += S.generate(ctx, 6 if ctx.quick else 30, 4, max_e=6, max_loops=1, routings_per_graph=1, kinds=("zero_xi",), names=["box", "pentagon", "triangle"],
+                     mass_mode="all")
     # graphs whose degree of divergence is exactly 1 (within 1e-8 of 1: the near-one branch), 1/2 and 2
     from .. import graphs as G, oracle as O
     special = []
